@@ -53,7 +53,8 @@ RULE = ("case = (scenario intro|retry, NAT kind of requester A x NAT kind of the
         "distinct / random), first NAT port (40001 / random / port preserving), private address family "
         "(10/8, 192.168/16, 172.16/12), candidates sharing one NAT box, mixed candidate placements and styles, "
         "UDPEndpoint vs DispatcherEndpoint, RandomWalk reset chance 0 or 50, requesters stepping one after the other "
-        "or in the same tick; every 4th seeded case is the lossy 'retry' configuration (loss 2-20 %, 2-6 rounds). "
+        "or in the same tick, candidates already known to B from an earlier life on another port (restart with the same key "
+        "before the introduction); every 4th seeded case is the lossy 'retry' configuration (loss 2-20 %, 2-6 rounds). "
         "Non-trivial = B handed out at least one introduction that was judged by the reachability oracle; "
         "distinct = (nat_a, nat_c, placement, style, n_candidates) plus the set of judged (requester kind, "
         "introduced kind, pair placement) triples.")
@@ -84,7 +85,7 @@ ASSUMPTIONS = ["cone NATs only (one mapping per inner socket whatever the destin
 REACH = ["introductions_judged", "puncture_request_observed", "puncture_dropped_at_restricted_nat",
          "lan_delivery_inside_nat", "new_style_exchange", "old_style_exchange", "unroutable_lan_attempt",
          "hole_punch_needed_and_worked", "same_nat_pair_over_lan", "randomwalk_steps", "retry_clean_round",
-         "retry_lossy_round", "pair:none/none/public", "pair:port/port/different", "pair:addr/port/different",
+         "retry_lossy_round", "candidate_restarted_on_other_port", "pair:none/none/public", "pair:port/port/different", "pair:addr/port/different",
          "pair:port/port/same"]
 
 KINDS = ("none", "full", "addr", "port")
@@ -112,7 +113,7 @@ def grid():  # noqa: ANN201
 
 DEFAULT_OPTS = {"order": "a_last", "gap": 0.3, "ports": "same", "nat_ports": "default", "lan": "10",
                 "endpoint": "auto", "c_shared": False, "mixed": False, "mixed_style": False, "reset_chance": 0,
-                "concurrent": False, "rounds": 1}
+                "concurrent": False, "rounds": 1, "restart": False}
 
 
 def _case(scn, cell, n, seed, knobs=None, **opts) -> dict:  # noqa: ANN001, ANN003
@@ -143,7 +144,8 @@ def seeded(cell, seed: int, tier: str, lossy: bool) -> dict:  # noqa: ANN001
             "mixed_style": rng.random() < 0.25,
             "reset_chance": rng.choice([0, 0, 50]),
             "concurrent": rng.random() < 0.4,
-            "rounds": 1}
+            "rounds": 1,
+            "restart": rng.random() < 0.25}
     scn = "intro"
     if lossy:
         scn = "retry"
@@ -161,6 +163,10 @@ def cases(tier: str, base_seed: int):  # noqa: ANN201
     for cell in cells:                       # 3 candidates, A walks first (A is also introduced to the candidates)
         s += 1
         yield _case("intro", cell, 3, s, order="a_first", gap=0.0, concurrent=True)
+    for cell in cells:                       # the candidates were known to B from an earlier life on another port (same key)
+        if cell[2] == "same" or (cell[0], cell[1]) in (("port", "port"), ("none", "addr"), ("full", "none")):
+            s += 1
+            yield _case("intro", cell, 2, s, restart=True)
     for cell in cells:                       # plain grid under loss with retries
         s += 1
         yield _case("retry", cell, 2, s, {"loss": 0.1}, rounds=4)
@@ -353,6 +359,7 @@ async def build(c: Case, case: dict) -> Topo:  # noqa: C901, PLR0912, PLR0915
         ep = "dispatcher" if (o["endpoint"] == "dispatcher" or "new" in (st, style)) else "udp"
         await node.open(ep)
         node.ov = node.add(cls)
+        node.ep_kind = ep
         t.nodes[name] = node
         t.kind[name] = kind
         t.style[name] = st
@@ -509,6 +516,27 @@ def execute(case: dict) -> dict:  # noqa: C901, PLR0912, PLR0915
             elif o["gap"] > 0:
                 await asyncio.sleep(rng.random() * o["gap"])
         await quiesce()
+        if o.get("restart") and not retry:
+            # history: every candidate is already known to B, then restarts with the same key on another port (fresh process
+            # state) and contacts B again from its new address
+            from ipv8.peer import Peer
+            from ipv8.peerdiscovery.network import Network
+            for n in [x for x in order if x != "A"]:
+                node = t.nodes[n]
+                await node.stop()
+                node.overlays = []
+                node.port = node.port + 1000 if node.port < 60000 else node.port - 1000
+                with world.as_node(n):
+                    node.my_peer = Peer(node.key)
+                    node.network = Network()
+                await node.open(node.ep_kind)
+                node.ov = node.add(overlay_class())
+                world.probe("candidate_restarted_on_other_port")
+            for n in [x for x in order if x != "A"]:
+                ask(t.nodes[n], b.address)
+                await quiesce()
+            # introductions B handed out before this point may name an incarnation that no longer exists: not judged
+            state["judge_from"] = loop.time()
         # 2. A asks B for an introduction
         ask(t.nodes["A"], b.address)
         await quiesce()
@@ -591,6 +619,9 @@ def execute(case: dict) -> dict:  # noqa: C901, PLR0912, PLR0915
         pairs: dict = {}          # (requester, introduced) -> [(response pkt, lan_i, wan_i, delivery time)] judged events
         for pkt, lan_i, wan_i in intros:
             req = sent.get(pkt.cause)
+            if pkt.t < state.get("judge_from", 0.0):
+                world.probe("introduction_before_restart_not_judged")
+                continue
             if req is None or req.src_node not in t.nodes:
                 world.probe("introduction_without_known_cause")
                 continue
